@@ -10,11 +10,43 @@ warnings.filterwarnings("ignore")
 np.seterr(all="ignore")
 
 
+def lane_task(t):
+    """a reduction / softmax-family call with given options on a given array; returns the gradient for a given incoming gradient"""
+    import mygrad.nnet.activations as A
+    import mygrad.nnet.losses as LS
+    x = mg.tensor(np.array(t["x"], dtype=np.float64).reshape(t["shape"]))
+    ax = t.get("axis")
+    ax = tuple(ax) if isinstance(ax, list) else ax
+    fn = t["fn"]
+    if fn in ("sum", "mean", "prod"):
+        r = getattr(mg, fn)(x, axis=ax, keepdims=t.get("keepdims", False))
+    elif fn in ("var", "std"):
+        r = getattr(mg, fn)(x, axis=ax, keepdims=t.get("keepdims", False), ddof=t.get("ddof", 0))
+    elif fn == "softmax":
+        r = A.softmax(x, axis=ax)
+    elif fn == "logsoftmax":
+        r = A.logsoftmax(x, axis=ax)
+    elif fn == "softmax_crossentropy":
+        r = LS.softmax_crossentropy(x, np.array(t["labels"]))
+    else:
+        raise ValueError(fn)
+    g = np.array(t["g"], dtype=np.float64).reshape(r.shape)
+    r.backward(g)
+    return {"out_shape": list(r.shape), "out": r.data.ravel().tolist(), "grad": x.grad.ravel().tolist()}
+
+
 def main():
     payload = read_payload()
     out = []
     for t in payload["tasks"]:
         reset_global_state()
+        if t.get("kind") == "lane":
+            try:
+                out.append(lane_task(t))
+            except Exception as e:
+                import traceback
+                out.append({"error": "%s: %s" % (type(e).__name__, str(e)[:200]), "tb": traceback.format_exc()[-600:]})
+            continue
         try:
             mod = importlib.import_module("mygrad." + t["source"][:-3].replace("/", "."))
             cls = getattr(mod, t["name"])
